@@ -10,6 +10,8 @@
 
 #include <ompl/base/PlannerTerminationCondition.h>
 #include <ompl/base/spaces/RealVectorStateSpace.h>
+#include <ompl/control/SpaceInformation.h>
+#include <ompl/control/spaces/RealVectorControlSpace.h>
 #include <ompl/datastructures/NearestNeighborsGNAT.h>
 #include <ompl/util/Console.h>
 #include <ompl/util/RandomNumbers.h>
@@ -21,6 +23,7 @@ using sim::Json;
 using sim::fmt;
 namespace ob = ompl::base;
 namespace og = ompl::geometric;
+namespace oc = ompl::control;
 namespace ss = sim::sched;
 
 namespace
@@ -59,7 +62,7 @@ namespace
     {
         Json plan = Json::object();
         plan["kind"] = "surface";
-        static const char *surfaces[] = {"si", "si", "gnat", "gnat", "rng", "space", "pdef", "log", "ptc", "mixed"};
+        static const char *surfaces[] = {"si", "si", "gnat", "gnat", "rng", "space", "pdef", "log", "ptc", "mixed", "csi"};
         plan["surface"] = g.pick(surfaces);
         int T = (int)g.pick(std::vector<double>{2, 2, 3, 4, 8, 16});
         plan["threads"] = T;
@@ -209,6 +212,33 @@ sim::CaseResult ConcSim::run(const sim::Options &, const Json &plan)
                 pts.erase(pts.begin() + (long)k);
         }
     }
+    // shared control space information on the same space: const propagation through a harness propagator (x += u dt)
+    auto cspace = std::make_shared<oc::RealVectorControlSpace>(w->ss, 2);
+    {
+        ob::RealVectorBounds cb(2);
+        cb.setLow(-1);
+        cb.setHigh(1);
+        cspace->setBounds(cb);
+    }
+    auto csi = std::make_shared<oc::SpaceInformation>(w->ss, cspace);
+    csi->setStateValidityChecker(std::make_shared<world::WorldValidity>(csi, w.get()));
+    csi->setStatePropagator([](const ob::State *st, const oc::Control *u, double dt, ob::State *out) {
+        const double *x = st->as<ob::RealVectorStateSpace::StateType>()->values;
+        const double *c = u->as<oc::RealVectorControlSpace::ControlType>()->values;
+        double nx = x[0] + c[0] * dt, ny = x[1] + c[1] * dt;
+        out->as<ob::RealVectorStateSpace::StateType>()->values[0] = nx;
+        out->as<ob::RealVectorStateSpace::StateType>()->values[1] = ny;
+    });
+    csi->setPropagationStepSize(0.25);
+    csi->setMinMaxControlDuration(1, 20);
+    csi->setup();
+    std::vector<oc::Control *> controls;
+    for (int i = 0; i < 8; i++)
+    {
+        controls.push_back(cspace->allocControl());
+        controls.back()->as<oc::RealVectorControlSpace::ControlType>()->values[0] = std::cos(i * 0.785398);
+        controls.back()->as<oc::RealVectorControlSpace::ControlType>()->values[1] = std::sin(i * 0.785398);
+    }
     RecordingHandler handler;
     ompl::msg::setLogLevel(ompl::msg::LOG_INFO);
     if (surface == "log" || surface == "mixed")
@@ -239,7 +269,50 @@ sim::CaseResult ConcSim::run(const sim::Options &, const Json &plan)
             static const char *all[] = {"si", "gnat", "rng", "space", "pdef", "log", "ptc"};
             s = all[a % 7];
         }
-        if (s == "si")
+        if (s == "csi")
+        {
+            // const propagation on a shared control::SpaceInformation: same answers as the sequential computation
+            const ob::State *s1 = states[(size_t)(a % 36)].get();
+            if (!w->valid(s1))
+                s1 = states[0].get();
+            const oc::Control *u = controls[(size_t)(b % 8)];
+            const double *cu = u->as<oc::RealVectorControlSpace::ControlType>()->values;
+            int steps = 1 + (int)(k % 6) * 3;
+            double x = s1->as<ob::RealVectorStateSpace::StateType>()->values[0], y = s1->as<ob::RealVectorStateSpace::StateType>()->values[1];
+            int expect = 0;
+            for (int i = 0; i < steps; i++)
+            {
+                double nx = x + cu[0] * 0.25, ny = y + cu[1] * 0.25;
+                ob::ScopedState<> t(w->ss);
+                t[0] = nx;
+                t[1] = ny;
+                if (!w->valid(t.get()))
+                    break;
+                x = nx;
+                y = ny;
+                expect++;
+            }
+            ob::ScopedState<> out(w->ss);
+            unsigned got;
+            if (k % 2 == 0)
+                got = csi->propagateWhileValid(s1, u, steps, out.get());
+            else
+            {
+                std::vector<ob::State *> v;
+                got = csi->propagateWhileValid(s1, u, steps, v, true);
+                if (!v.empty())
+                    w->ss->copyState(out.get(), v.back());
+                else
+                    w->ss->copyState(out.get(), s1);
+                for (auto *p : v)
+                    w->ss->freeState(p);
+            }
+            if ((int)got != expect || std::fabs(out[0] - x) > 1e-12 || std::fabs(out[1] - y) > 1e-12)
+                me.error = fmt("propagateWhileValid on a shared control::SpaceInformation: %u steps ending at (%.6g, %.6g), sequential answer %d steps ending at (%.6g, %.6g)",
+                               got, out[0], out[1], expect, x, y);
+            me.h = sim::hashU64(me.h, (uint64_t)got);
+        }
+        else if (s == "si")
         {
             const ob::State *s1 = states[(size_t)(a % 36)].get(), *s2 = states[(size_t)(b % 36)].get();
             if (k < 2)
@@ -449,6 +522,8 @@ sim::CaseResult ConcSim::run(const sim::Options &, const Json &plan)
     if ((surface == "log") && (long)handler.lines.size() != logCalls)
         res.violate("C19.log-lines-lost surface=" + surface, fmt("%zu lines recorded for %ld log calls", handler.lines.size(), logCalls));
     ompl::msg::noOutputHandler();
+    for (auto *u : controls)
+        cspace->freeControl(u);
     res.trace = h;
     res.interleavings.push_back(st.scheduleHash);
     res.simSeconds = st.simSeconds;
